@@ -683,6 +683,12 @@ func (s *backendSuite) do(t []string) string {
 		// or stream that is the read of the compaction record)
 		s.c.mu.Lock()
 		s.c.getFault = true
+		s.c.getFaultSkip = 0
+		if v, ok := opts["skip"]; ok {
+			// getfault skip=<n>: the n point Gets before the failing one are served (a compaction reads the compaction
+			// record once in backend.setCompactRecord and then once per range in the scanner)
+			s.c.getFaultSkip = atoi(v)
+		}
 		s.c.mu.Unlock()
 		return "getfault ok"
 	case "iterfault":
